@@ -247,7 +247,7 @@ func c12Check(r *core.Run, a *Authority, m *c12Model, cfg Config, made string, o
 			}
 		}
 	}
-	v, err := a.View()
+	v, err := a.DurableView()
 	if err != nil {
 		// A key directory that no longer loads, etc.: the authority is unusable, which only
 		// wipeout may cause.
@@ -260,24 +260,33 @@ func c12Check(r *core.Run, a *Authority, m *c12Model, cfg Config, made string, o
 	// epoch boundaries
 	if ok && strings.HasPrefix(made, "wipe") {
 		what := strings.TrimPrefix(made, "wipe:")
-		if what != "ca" {
-			for _, name := range core.SortedKeys(m.allNames) {
-				if v.CanSign(name) {
-					r.Fail("usable-after-wipeout", "key:"+what, "%s: key %q still signs after the wipeout", where, name)
-				}
+		// what a newly started process reads, and (long-lived authority) what the running one answers
+		views := []*View{v}
+		if a.Persist {
+			if lv, err := a.View(); err == nil {
+				views = append(views, lv)
 			}
 		}
-		if what != "keys" {
-			if p, err := v.CA.PrimarySigningKeyVersion(v.Ctx); err == nil && p != "" {
-				r.Fail("usable-after-wipeout", "primary:"+what, "%s: primary signing key %q still recorded after the wipeout", where, p)
-			}
-			for _, name := range core.SortedKeys(m.allNames) {
-				if _, err := v.CA.Certificate(v.Ctx, name); err == nil {
-					r.Fail("usable-after-wipeout", "cert:"+what, "%s: certificate of %q still readable after the wipeout", where, name)
+		for _, v := range views {
+			if what != "ca" {
+				for _, name := range core.SortedKeys(m.allNames) {
+					if v.CanSign(name) {
+						r.Fail("usable-after-wipeout", "key:"+what, "%s: key %q still signs after the wipeout", where, name)
+					}
 				}
 			}
-			if len(a.CertObjects()) != 0 {
-				r.Fail("usable-after-wipeout", "objects:"+what, "%s: %d certificate objects remain after the wipeout", where, len(a.CertObjects()))
+			if what != "keys" {
+				if p, err := v.CA.PrimarySigningKeyVersion(v.Ctx); err == nil && p != "" {
+					r.Fail("usable-after-wipeout", "primary:"+what, "%s: primary signing key %q still recorded after the wipeout", where, p)
+				}
+				for _, name := range core.SortedKeys(m.allNames) {
+					if _, err := v.CA.Certificate(v.Ctx, name); err == nil {
+						r.Fail("usable-after-wipeout", "cert:"+what, "%s: certificate of %q still readable after the wipeout", where, name)
+					}
+				}
+				if len(a.CertObjects()) != 0 {
+					r.Fail("usable-after-wipeout", "objects:"+what, "%s: %d certificate objects remain after the wipeout", where, len(a.CertObjects()))
+				}
 			}
 		}
 		m.everPrimary, m.primary, m.prevSerial = map[string][]byte{}, "", nil
